@@ -87,7 +87,7 @@ Lemma fold_keeps_none (f : key -> ws -> ws) l :
 Proof. intros Hf. induction l; intros w k H; simpl; auto. Qed.
 
 Section Converge.
-  Variables (lt : link) (avail : list bytes) (tr : trees) (order : list key) (w : ws) (t : target).
+  Variables (lt : link) (avail : list bytes) (tr : trees) (order odc : list key) (w : ws) (t : target).
   Let t' := fst (expand tr t).
   Let p := compare false true w tr t.
   Hypothesis Hw : ws_ok w.
@@ -96,14 +96,14 @@ Section Converge.
   Hypothesis Hnf : snd (expand tr t) = [].
   Hypothesis Hav : forall k x c, lookup t' k = Some (TFile x c) -> exists c0, c = Some c0 /\ mem_bytes c0 avail = true.
 
-  Let DC := dirs_create (fst p).
+  Let DC := DCl odc p.
   Let L := files_create (fst p).
   Let PL := map (fun kc : key * option bytes => parent (fst kc)) L.
-  Let W3 := ws3 p w.
+  Let W3 := ws3 odc p w.
   Let W3' := fold_left (fun w k => makedirs k w) PL W3.
 
   Lemma In_DC k : In k DC <-> dc (lookup w k) (lookup t' k) = true.
-  Proof. unfold DC, p. rewrite dirs_create_nofail by exact Hnf. apply In_dirs_create_raw. Qed.
+  Proof. unfold DC, DCl, p. rewrite reorder_In_iff, dirs_create_nofail by exact Hnf. apply In_dirs_create_raw. Qed.
   Lemma In_L k c : In (k, c) L <-> fc (lookup w k) (lookup t' k) = true /\ c = t_content (lookup t' k).
   Proof. apply In_files_create. Qed.
 
@@ -150,24 +150,40 @@ Section Converge.
 
   Lemma mid3 : Mid W3.
   Proof.
-    intros k NE. unfold W3, ws3. rewrite makedirs_fold_spec. fold (ws2 p w). unfold p.
-    rewrite (delete_phase w tr t Hw Ht k NE). fold t'. fold p. fold DC.
-    destruct Hw as [Hpc [Hnd _]]. specialize (Hnd k).
+    intros k NE. unfold W3, ws3. rewrite makedirs_fold_spec. fold DC. unfold p.
+    rewrite (delete_phase w tr t Hw Ht k NE). fold t'. fold p.
     destruct (lookup t' k) as [[x c|h lz]|] eqn:T.
     - assert (U : under_some k DC = false).
       { apply no_under; [apply DC_dirnode|]. apply not_dirnode. rewrite T. now left. }
+      destruct (Hav _ _ _ T) as [c0 [-> A]].
       rewrite U. destruct (lookup w k) as [[b xo sho| |]|] eqn:O; unfold fd, dd; simpl; try congruence.
-      destruct c as [c|]; simpl; auto. destruct (list_N_eqb b c); simpl; auto.
+      destruct (list_N_eqb b c0); simpl; auto.
     - assert (U : o_dir (lookup w k) = false -> under_some k DC = true).
       { intros OD. apply under_some_spec. exists k. split; [|now apply In_prefixes_self].
         apply In_DC. rewrite T. unfold dc. simpl. now rewrite OD. }
-      destruct (lookup w k) as [[b xo sho| |]|] eqn:O; unfold fd, dd; simpl; try congruence; rewrite U; auto.
+      destruct (lookup w k) as [[b xo sho| |]|] eqn:O; unfold fd, dd; simpl; try congruence.
+      + rewrite U; auto.
+      + rewrite U; auto.
+      + rewrite U; auto.
     - destruct (has_node t' k) eqn:HN.
       + destruct (lookup w k) as [[b xo sho| |]|] eqn:O; unfold fd, dd; simpl; try congruence; auto;
           destruct (under_some k DC); auto.
       + assert (U : under_some k DC = false).
         { apply no_under; [apply DC_dirnode|]. apply not_dirnode. rewrite T. right. auto. }
         rewrite U. destruct (lookup w k) as [[b xo sho| |]|] eqn:O; unfold fd, dd; simpl; try congruence; auto.
+  Qed.
+
+  (* _create_dirs meets no obstruction *)
+  Lemma cd3_ok : cd3 odc p w = (W3, false).
+  Proof.
+    unfold cd3, W3, ws3. apply create_dirs_ok. intros k q Ik Iq.
+    pose proof (DC_dirnode _ _ Ik Iq) as D. apply dirnode_cases in D.
+    assert (NE : q <> []) by (apply In_prefixes_iff in Iq; tauto).
+    unfold clear_at. unfold p. rewrite (delete_phase w tr t Hw Ht q NE). fold t'.
+    destruct D as [D|[N HN]].
+    - destruct (lookup t' q) as [[|h lz]|] eqn:T; simpl in D; try discriminate.
+      destruct (lookup w q) as [[b xo sho| |]|] eqn:O; unfold fd, dd; simpl; auto.
+    - rewrite N, HN. destruct (lookup w q) as [[b xo sho| |]|] eqn:O; unfold fd, dd; simpl; auto.
   Qed.
 
   Lemma mid_makedirs l W : Mid W -> (forall k' q, In k' l -> In q (prefixes k') -> dirnode q) ->
@@ -205,10 +221,10 @@ Section Converge.
     intros NE T HN. pose proof (mid3' k NE) as M. rewrite T, HN in M. destruct M as [M|E]; auto. exfalso.
     unfold W3' in E. rewrite makedirs_fold_spec in E.
     destruct (lookup W3 k) eqn:E3; [discriminate|]. destruct (under_some k PL) eqn:U1; [discriminate|].
-    unfold W3, ws3 in E3. rewrite makedirs_fold_spec in E3. fold (ws2 p w) in E3. fold DC in E3.
+    unfold W3, ws3 in E3. rewrite makedirs_fold_spec in E3. fold DC in E3.
     destruct (lookup (ws2 p w) k) eqn:E2; [discriminate|]. destruct (under_some k DC) eqn:U2; [discriminate|].
     unfold p in E2. rewrite (delete_phase w tr t Hw Ht k NE) in E2. fold t' in E2. rewrite T, HN in E2.
-    destruct Hw as [Hpc [Hnd _]].
+    destruct Hw as [Hpc _].
     apply has_node_spec in HN as [k2 [P N2]].
     assert (O2 : lookup w k2 = None).
     { destruct (lookup w k2) eqn:O2; auto. exfalso.
@@ -243,17 +259,17 @@ Section Converge.
   Lemma L_NoDup : NoDup (map fst L).
   Proof. unfold L, p. rewrite files_create_acts, map_fst_sel. apply sel_NoDup, dedup_NoDup. Qed.
 
-  Lemma w4_eq : ws4 lt avail p w = fold_left (cf_step lt avail) L (W3', []).
+  Lemma w4_eq : ws4 lt avail odc p w = fold_left (cf_step lt avail) L (W3', []).
   Proof.
-    unfold ws4. fold L. rewrite create_files_eq. fold (ws3 p w). fold W3. f_equal. f_equal.
+    unfold ws4. fold L. rewrite cd3_ok. cbn [fst]. rewrite create_files_eq. f_equal. f_equal.
     rewrite make_parents_all; auto.
     intros [k c] I. destruct (L_entry _ _ I) as [x [c0 [_ [-> [A _]]]]]. unfold to_transfer. cbn [snd].
     destruct lt; auto.
   Qed.
 
   Lemma w4_spec :
-    snd (ws4 lt avail p w) = [] /\
-    forall k, lookup (fst (ws4 lt avail p w)) k =
+    snd (ws4 lt avail odc p w) = [] /\
+    forall k, lookup (fst (ws4 lt avail odc p w)) k =
               match assoc_c L k with
               | Some (Some c0) => Some (File c0 false (shares lt c0))
               | _ => lookup W3' k
@@ -280,7 +296,7 @@ Section Converge.
     | None => o = if hn then Some Dir else None
     end.
 
-  Lemma w4_at k : k <> [] -> at4 (lookup (fst (ws4 lt avail p w)) k) (lookup w k) (lookup t' k) (has_node t' k).
+  Lemma w4_at k : k <> [] -> at4 (lookup (fst (ws4 lt avail odc p w)) k) (lookup w k) (lookup t' k) (has_node t' k).
   Proof.
     intros NE. destruct w4_spec as [_ S]. rewrite S. pose proof (mid3' k NE) as M. unfold at4.
     destruct (lookup t' k) as [[x c|h lz]|] eqn:T.
@@ -298,7 +314,7 @@ Section Converge.
         destruct (L_entry _ _ I) as [x [c0 [T2 _]]]. congruence.
   Qed.
 
-  Let W4 := fst (ws4 lt avail p w).
+  Let W4 := fst (ws4 lt avail odc p w).
   Let CH := reorder order (files_chmod (fst p)).
 
   Lemma In_CH k : In k CH <-> fch (lookup w k) (lookup t' k) = true.
@@ -342,18 +358,19 @@ Section Converge.
   Qed.
 
   Theorem converges :
-    let o := checkout lt true avail tr order w t in
+    let o := checkout lt true avail tr order odc w t in
     o_errs o = [] /\ o_raised o = false /\
     (forall k, k <> [] -> conv_at (lookup (o_ws o) k) (lookup t' k) (has_node t' k)) /\
     lookup (o_ws o) [] = None.
   Proof.
     cbv zeta. unfold checkout. fold p.
     destruct (chmod_files_spec CH W4 CH_files) as [R [LE X]].
+    assert (R3 : snd (cd3 odc p w) = false) by (now rewrite cd3_ok).
     repeat split.
-    - rewrite apply_errs. destruct w4_spec as [E _]. rewrite E, app_nil_r.
+    - rewrite apply_errs by exact R3. destruct w4_spec as [E _]. rewrite E, app_nil_r.
       unfold p. rewrite compare_eq. cbn [snd]. now rewrite Hnf.
-    - rewrite apply_raised. exact R.
-    - intros k NE. rewrite apply_ws. fold CH. fold W4. specialize (LE k).
+    - rewrite apply_raised by exact R3. exact R.
+    - intros k NE. rewrite apply_ws by exact R3. fold CH. fold W4. specialize (LE k).
       pose proof (w4_at k NE) as A. fold W4 in A. unfold at4 in A. unfold conv_at.
       destruct (lookup t' k) as [[x c|h lz]|] eqn:T.
       + destruct A as [c0 [-> A]]. exists c0.
@@ -375,18 +392,18 @@ Section Converge.
       + rewrite A in LE. destruct (lookup (fst (chmod_files CH W4)) k) as [[]|]; simpl in LE; tauto || auto.
       + rewrite A in LE. destruct (has_node t' k);
           destruct (lookup (fst (chmod_files CH W4)) k) as [[]|]; simpl in LE; tauto || auto.
-    - rewrite apply_ws. fold CH. fold W4. specialize (LE []). rewrite root_none in LE.
+    - rewrite apply_ws by exact R3. fold CH. fold W4. specialize (LE []). rewrite root_none in LE.
       destruct (lookup (fst (chmod_files CH W4)) []) as [[]|]; simpl in LE; tauto || auto.
   Qed.
 
   (* ---- the second compare ---------------------------------------------------------------------------- *)
   Theorem fixpoint :
-    let o := checkout lt true avail tr order w t in
+    let o := checkout lt true avail tr order odc w t in
     let p2 := fst (compare false true (o_ws o) tr t) in
     files_delete p2 = [] /\ dirs_delete p2 = [] /\ files_create p2 = [] /\ forall k, In k (dirs_create p2) -> k = [].
   Proof.
     cbv zeta. destruct converges as [_ [_ [C R]]]. cbv zeta in C, R.
-    set (w' := o_ws (checkout lt true avail tr order w t)) in *.
+    set (w' := o_ws (checkout lt true avail tr order odc w t)) in *.
     assert (K : forall k, match lookup t' k with
                           | Some (TFile x c) => same_file (lookup w' k) (lookup t' k) = true
                           | Some (TDir _ _) => k <> [] -> lookup w' k = Some Dir
@@ -402,7 +419,7 @@ Section Converge.
     repeat split.
     - apply nil_of_notin. intros k I. apply In_files_delete in I. fold t' in I. specialize (K k).
       unfold fd in I. destruct (lookup t' k) as [[x c|]|] eqn:T.
-      + rewrite K in I. now rewrite andb_false_r in I.
+      + destruct (lookup w' k) as [[]|]; simpl in K, I; try discriminate. rewrite K in I. discriminate.
       + destruct (key_eq_dec k []) as [->|NE]; [rewrite R in I; discriminate|]. rewrite (K NE) in I. discriminate.
       + destruct K as [K|K]; rewrite K in I; [destruct (has_node t' k)|]; discriminate.
     - apply nil_of_notin. intros k I. apply In_dirs_delete in I. fold t' in I. specialize (K k).
@@ -440,7 +457,7 @@ Proof.
     repeat (destruct H as [H|H]); try contradiction; injection H as <- <- <-; eexists; split; reflexivity.
 Qed.
 Example ex3_run :
-  let o := checkout Symlink true [[9]; [3]] [] [] ex2_ws ex3_target in
+  let o := checkout Symlink true [[9]; [3]] [] [] [] ex2_ws ex3_target in
   lookup (o_ws o) [[97]; [98]] = Some (File [9] true true) /\ lookup (o_ws o) [[112]; [113]] = Some Dir /\
   lookup (o_ws o) [[112]; [113]; [120]] = Some (File [3] false true) /\ lookup (o_ws o) [[100]] = None /\
   lookup (o_ws o) [[97]; [120]] = None /\ o_errs o = [].
@@ -456,3 +473,41 @@ Proof.
   split; [|split; reflexivity].
   intros k H p P. enum_keys H; enum_prefixes P; reflexivity.
 Qed.
+
+(* ---- workspaces with broken links -------------------------------------------------------------------------- *)
+(* k (file), a/ with a/b -> broken link and a/c (file), old/ with old/x -> broken link, z -> broken link;
+   target (file entries): a/b = [9] (a broken link sits there), k.  The links outside the target and the
+   directory that holds only a broken link must go, the one at a/b is replaced. *)
+Definition ex5_ws : ws :=
+  [([[107]], File [3] false false); ([[97]], Dir); ([[97]; [98]], Dangling); ([[97]; [99]], File [1] false false);
+   ([[111]], Dir); ([[111]; [120]], Dangling); ([[122]], Dangling)].
+Definition ex5_target : target := [([[97]; [98]], TFile false (Some [9])); ([[107]], TFile false (Some [3]))].
+Example ex5_hyps : ws_ok ex5_ws /\ tgt_ok (fst (expand [] ex5_target)).
+Proof.
+  split.
+  - split; [|reflexivity]. intros k H p P NE. enum_keys H; enum_prefixes P; reflexivity.
+  - intros k H p P. enum_keys H; enum_prefixes P; reflexivity.
+Qed.
+Example ex5_run :
+  let o := checkout Hardlink true [[9]; [3]] [] [] [] ex5_ws ex5_target in
+  o_ws o = [([[97]; [98]], File [9] false true); ([[107]], File [3] false false); ([[97]], Dir)] /\
+  o_errs o = [] /\ o_raised o = false.
+Proof. repeat split; vm_compute; reflexivity. Qed.
+
+(* a broken link at a/b, a lazily loaded directory object at a that lists b/c: the inner directory a/b gets an
+   entry without hash and _diff_entry says ADD; since /repo 8d3fac7 the link is deleted first and the checkout
+   converges (before, os.makedirs raised FileExistsError out of apply) *)
+Definition ex6_ws : ws := [([[97]], Dir); ([[97]; [98]], Dangling)].
+Definition ex6_trees : trees := [([1], [([[98]; [99]], [65])])].
+Definition ex6_target : target := [([[97]], TDir (Some [1]) true)].
+Example ex6_hyps : ws_ok ex6_ws /\ tgt_ok (fst (expand ex6_trees ex6_target)) /\ snd (expand ex6_trees ex6_target) = [].
+Proof.
+  split; [|split; [|reflexivity]].
+  - split; [|reflexivity]. intros k H p P NE. enum_keys H; enum_prefixes P; reflexivity.
+  - intros k H p P. enum_keys H; enum_prefixes P; reflexivity.
+Qed.
+Example ex6_run :
+  let o := checkout Copy true [[65]] ex6_trees [] [] ex6_ws ex6_target in
+  o_dirs_raised o = false /\ lookup (o_ws o) [[97]; [98]] = Some Dir /\
+  lookup (o_ws o) [[97]; [98]; [99]] = Some (File [65] false false) /\ o_errs o = [].
+Proof. repeat split; vm_compute; reflexivity. Qed.
